@@ -41,12 +41,27 @@ class State:
         n.nfail = s.nfail; n.assumed = s.assumed; n.nobj = s.nobj
         return n
 
+_bvv = {}
+def bvval(v, bits):
+    k = (v, bits); r = _bvv.get(k)
+    if r is None: r = _bvv[k] = z3.BitVecVal(v, bits)
+    return r
 def ranges_cond(v, bits, rs):
     cs = []
     for lo, hi in rs:
-        if lo == hi: cs.append(v == z3.BitVecVal(lo, bits))
-        else: cs.append(z3.And(z3.ULE(z3.BitVecVal(lo, bits), v), z3.ULE(v, z3.BitVecVal(hi, bits))))
+        if lo == hi: cs.append(v == bvval(lo, bits))
+        else: cs.append(z3.And(z3.ULE(bvval(lo, bits), v), z3.ULE(v, bvval(hi, bits))))
     return cs[0] if len(cs) == 1 else z3.Or(cs)
+_swcache = {}
+def switch_alts(I, v):
+    key = (id(I), v.get_id()); r = _swcache.get(key)
+    if r is not None and r[0] is I and r[1].eq(v): return r[2]
+    bits = I[1]; alts = []; allc = []
+    for t, rs in I[4]:
+        c = ranges_cond(v, bits, rs); alts.append((c, t)); allc.append(c)
+    alts.append((z3.Not(z3.Or(allc)) if len(allc) > 1 else z3.Not(allc[0]), I[3]))
+    if len(_swcache) > 200000: _swcache.clear()
+    _swcache[key] = (I, v, alts); return alts
 
 def sgn(v, bits):
     return v - (1 << bits) if v >> (bits - 1) else v
@@ -65,7 +80,7 @@ class Engine:
         E.max_violations = int(E.opts.get('max_violations', 5))
         E.sample_every = int(E.opts.get('sample_every', 97)); E.max_samples = int(E.opts.get('max_samples', 12))
         E.deadline = E.opts.get('deadline')
-        E.strs = {}
+        E.strs = {}; E._pure = {}
 
     # ------------------------------------------------------------------ solver
     def check(E, cond):
@@ -345,12 +360,8 @@ class Engine:
                         v = ev(st, regs, I[2])
                         if type(v) is int:
                             fr.prev = fr.blk; fr.blk = I[5].get(v, I[3]); fr.ip = 0; break
-                        bits = I[1]; alts = []; allc = []
-                        for t, rs in I[4]:
-                            c = ranges_cond(v, bits, rs); alts.append((c, t)); allc.append(c)
-                        alts.append((z3.Not(z3.Or(allc)) if len(allc) > 1 else z3.Not(allc[0]), I[3]))
                         fr.ip = ip
-                        return E.fork_branch(st, alts)
+                        return E.fork_branch(st, switch_alts(I, v))
                     elif op == 'alloca':
                         oid = E.new_obj(st, I[2], 's', 'stack:' + fr.fn.name); fr.allocas.append(oid); regs[I[1]] = ('P', oid, 0)
                     elif op == 'inttoptr':
@@ -401,6 +412,7 @@ class Engine:
             if pred == 'ne': return z3.Xor(x, y)
             raise Unsupported('relational i1 compare')
         x = E.tobv(a, bits); y = E.tobv(b, bits)
+        if x.eq(y): return int(pred in ('eq', 'ule', 'uge', 'sle', 'sge'))
         if pred == 'eq': return x == y
         if pred == 'ne': return x != y
         if pred == 'ult': return z3.ULT(x, y)
@@ -519,6 +531,95 @@ class Engine:
         need = max(wx, wy) + 1 if op in ('add', 'sub') else wx + wy
         return need <= bits
 
+    # ------------------------------------------------------------------ pure scalar functions: evaluated to an ite term, no forking
+    def is_pure(E, f):
+        r = E._pure.get(f.name)
+        if r is not None: return r
+        ok = not f.name.startswith('dfa_') and len(f.blocks) <= 80
+        E._pure[f.name] = False    # recursion guard
+        if ok:
+            for b in f.blocks.values():
+                for I in b:
+                    op = I[0]
+                    if op in ('phi', 'icmp', 'bin', 'zext', 'sext', 'trunc', 'br', 'cbr', 'switch', 'select', 'ret', 'unreachable'): continue
+                    if op == 'mov' and I[2][0] in ('r', 'k'): continue
+                    if op == 'call' and I[2][0] == '@':
+                        g = E.mod.funcs.get(I[2][1:].strip('"'))
+                        if g is not None and g is not f and E.is_pure(g): continue
+                    ok = False; break
+                if not ok: break
+        if ok:
+            # acyclic?
+            color = {}
+            def dfs(b):
+                color[b] = 1
+                t = f.blocks[b][-1]
+                succ = [t[1]] if t[0] == 'br' else [t[2], t[3]] if t[0] == 'cbr' else ([t[3]] + [x[0] for x in t[4]]) if t[0] == 'switch' else []
+                for s in succ:
+                    c = color.get(s)
+                    if c == 1: return False
+                    if c is None and not dfs(s): return False
+                color[b] = 2; return True
+            ok = dfs(f.entry)
+        E._pure[f.name] = ok; return ok
+    def merge_vals(E, c, a, b, bits):
+        if type(a) is int and type(b) is int and a == b: return a
+        if type(a) is tuple or type(b) is tuple: raise Unsupported('pointer in pure function')
+        if bits == 1: return z3.If(c, E.tobool(a), E.tobool(b))
+        return z3.If(c, E.tobv(a, bits), E.tobv(b, bits))
+    def eval_pure(E, st, f, args, rbits):
+        budget = [4000]
+        def blk(name, prev, regs):
+            budget[0] -= 1
+            if budget[0] < 0: raise Unsupported('pure function too large: ' + f.name)
+            insts = f.blocks[name]; regs = dict(regs); ip = 0
+            if insts[0][0] == 'phi':
+                vals = []
+                while insts[ip][0] == 'phi':
+                    vals.append((insts[ip][1], E.ev(st, regs, insts[ip][2][prev]))); ip += 1
+                for d, v in vals: regs[d] = v
+            while True:
+                I = insts[ip]; ip += 1; op = I[0]; E.stats['instr'] += 1
+                if op == 'mov': regs[I[1]] = E.ev(st, regs, I[2])
+                elif op == 'icmp': regs[I[1]] = E.icmp(st, I[2], I[3], E.ev(st, regs, I[4]), E.ev(st, regs, I[5]))
+                elif op == 'bin': regs[I[1]] = E.binop(st, I[2], I[3], E.ev(st, regs, I[4]), E.ev(st, regs, I[5]), False)
+                elif op in ('zext', 'sext', 'trunc'): regs[I[1]] = E.cast(op, E.ev(st, regs, I[3]), I[2], I[4])
+                elif op == 'select':
+                    c = E.ev(st, regs, I[2])
+                    if type(c) is int: regs[I[1]] = E.ev(st, regs, I[3] if c else I[4])
+                    else: regs[I[1]] = E.merge_vals(E.tobool(c), E.ev(st, regs, I[3]), E.ev(st, regs, I[4]), I[5])
+                elif op == 'call':
+                    g = E.mod.funcs[I[2][1:].strip('"')]
+                    r = E.eval_pure(st, g, [E.ev(st, regs, a) for a in I[3]], I[4])
+                    if I[1] is not None: regs[I[1]] = r
+                elif op == 'br': return blk(I[1], name, regs)
+                elif op == 'cbr':
+                    c = E.ev(st, regs, I[1])
+                    if type(c) is int: return blk(I[2] if c else I[3], name, regs)
+                    return E.merge_vals(E.tobool(c), blk(I[2], name, regs), blk(I[3], name, regs), rbits)
+                elif op == 'switch':
+                    v = E.ev(st, regs, I[2])
+                    if type(v) is int: return blk(I[5].get(v, I[3]), name, regs)
+                    r = blk(I[3], name, regs)
+                    for t, rs in reversed(I[4]):
+                        r = E.merge_vals(ranges_cond(v, I[1], rs), blk(t, name, regs), r, rbits)
+                    return r
+                elif op == 'ret': return E.ev(st, regs, I[1]) if I[1] is not None else 0
+                elif op == 'unreachable': return 0
+                else: raise Unsupported('pure ' + op)
+        return blk(f.entry, None, dict(zip(f.args, args)))
+    def cast(E, op, v, sb, db):
+        if type(v) is int:
+            if op == 'sext' and v >> (sb - 1): v |= ((1 << db) - 1) ^ ((1 << sb) - 1)
+            return v & ((1 << db) - 1)
+        if type(v) is tuple: raise Unsupported('cast of pointer')
+        if z3.is_bool(v): return z3.If(v, bvval((1 << db) - 1 if op == 'sext' else 1, db), bvval(0, db))
+        if op == 'zext': return z3.ZeroExt(db - sb, v)
+        if op == 'sext': return z3.SignExt(db - sb, v)
+        r = z3.Extract(db - 1, 0, v)
+        if db == 1: r = (r == bvval(1, 1))
+        return r
+
     # ------------------------------------------------------------------ forks
     def fork_branch(E, st, alts):
         """alts: [(cond, target block)].  Returns continuation list for the driver."""
@@ -567,6 +668,11 @@ class Engine:
         f = E.mod.funcs.get(name)
         if f is not None and name not in intrinsics.OVERRIDE:
             E.funcs_entered.add(name)
+            if any(type(a) is not int and type(a) is not tuple for a in args) and E.is_pure(f):
+                E.stats['pure_calls'] = E.stats.get('pure_calls', 0) + 1
+                r = E.eval_pure(st, f, args, I[4])
+                if I[1] is not None: fr.regs[I[1]] = r
+                return None
             if len(st.frames) > int(E.opts.get('max_stack', 4000)): raise Unsupported('call stack too deep')
             nf = Frame(); nf.fn = f; nf.blk = f.entry; nf.ip = 0; nf.regs = dict(zip(f.args, args)); nf.prev = None; nf.dest = I[1]; nf.allocas = []
             st.frames.append(nf); return None
